@@ -379,15 +379,23 @@ func (g *G) CreateTable(d int) X {
 					rd.Set("Columns", rts)
 					toks = cat(toks, rtoks)
 				}
-				if g.R.Intn(3) == 0 {
+				// referential actions, in either written order
+				var acts [][]Tok
+				if g.R.Intn(2) == 0 {
 					a := g.pick([]string{"CASCADE", "RESTRICT", "SET NULL", "SET DEFAULT", "NO ACTION"})
-					toks = cat(toks, kw("ON DELETE"), kw(a))
+					acts = append(acts, cat(kw("ON DELETE"), kw(a)))
 					rd.Set("OnDelete", a)
 				}
-				if g.R.Intn(4) == 0 {
+				if g.R.Intn(2) == 0 {
 					a := g.pick([]string{"CASCADE", "RESTRICT", "SET NULL"})
-					toks = cat(toks, kw("ON UPDATE"), kw(a))
+					acts = append(acts, cat(kw("ON UPDATE"), kw(a)))
 					rd.Set("OnUpdate", a)
+				}
+				if len(acts) == 2 && g.R.Intn(2) == 0 {
+					acts[0], acts[1] = acts[1], acts[0]
+				}
+				for _, at := range acts {
+					toks = cat(toks, at)
 				}
 				cons = append(cons, dump.N("ColumnConstraint", "Type", "REFERENCES", "References", rd))
 			case 6:
@@ -433,10 +441,22 @@ func (g *G) CreateTable(d int) X {
 				rd.Set("Columns", rts)
 				toks = cat(toks, rtoks)
 			}
-			if g.R.Intn(3) == 0 {
+			var acts [][]Tok
+			if g.R.Intn(2) == 0 {
 				a := g.pick([]string{"CASCADE", "RESTRICT", "SET NULL"})
-				toks = cat(toks, kw("ON DELETE"), kw(a))
+				acts = append(acts, cat(kw("ON DELETE"), kw(a)))
 				rd.Set("OnDelete", a)
+			}
+			if g.R.Intn(2) == 0 {
+				a := g.pick([]string{"CASCADE", "RESTRICT", "NO ACTION"})
+				acts = append(acts, cat(kw("ON UPDATE"), kw(a)))
+				rd.Set("OnUpdate", a)
+			}
+			if len(acts) == 2 && g.R.Intn(2) == 0 {
+				acts[0], acts[1] = acts[1], acts[0]
+			}
+			for _, at := range acts {
+				toks = cat(toks, at)
 			}
 			tc.Set("Type", "FOREIGN KEY").Set("Columns", cs)
 			tc.F["References"] = rd
